@@ -325,6 +325,35 @@ theorem remove_bad_removes_failed (rt : RT) :
     obtain ⟨b, _, hx⟩ := hx
     exact (bad_iff_failed x).mp (List.mem_filter.mp hx).2
 
+/-- The periodic refresh (`DHTCommunity.node_maintenance`): on every reachable table, for every choice of stale buckets and
+    every value the draws can return, each lookup target of the round lies inside the bucket it refreshes (and has width
+    `w`), and the refreshed buckets are exactly the stale ones, each once. -/
+theorem refresh_targets_inside (hm : 1 ≤ m) (me : Bits) (ops : List Op) (hv : ValidHistory w ops) (hw : w % 8 = 0)
+    (stale : Bits → Bool) (draw : Bits → Nat) (hdraw : ∀ k, draw k < Gen.genIdDrawBound (w - k.length)) :
+    (∀ kt ∈ (run (RT.init me m) ops).refresh w stale draw, ∃ id, kt.2 = some id ∧ kt.1 <+: id ∧ id.length = w) ∧
+    ((run (RT.init me m) ops).refresh w stale draw).map (·.1) = (run (RT.init me m) ops).trie.keys.filter stale := by
+  constructor
+  · intro kt hkt
+    simp only [RT.refresh, List.mem_filterMap, Option.map_eq_some_iff] at hkt
+    obtain ⟨k, _, b, hb, rfl⟩ := hkt
+    exact generated_id_in_reachable_bucket hm me ops hv hw k b hb (draw k) (hdraw k)
+  · have hall : ∀ k ∈ (run (RT.init me m) ops).trie.keys.filter stale, ∃ b, (run (RT.init me m) ops).trie.get k = some b :=
+      fun k hk => (Trie.mem_keys_iff _ k).mp (List.mem_filter.mp hk).1
+    unfold RT.refresh
+    generalize (run (RT.init me m) ops).trie.keys.filter stale = l at hall
+    induction l with
+    | nil => rfl
+    | cons k l ih =>
+      obtain ⟨b, hb⟩ := hall k (by simp)
+      simp only [List.filterMap_cons, hb, Option.map_some, List.map_cons]
+      rw [ih (fun k' hk' => hall k' (by simp [hk']))]
+
+example : ((run (RT.init [true, false, true, false, true, false, true, false] 2)
+      [.add ⟨[true, true, false, false, false, false, false, false], 0, true, 1, 1, 0⟩,
+       .add ⟨[false, true, false, false, false, false, false, false], 0, true, 1, 2, 1⟩,
+       .add ⟨[true, false, false, false, false, false, false, true], 0, true, 1, 3, 2⟩]).refresh 8
+      (fun k => k == [false]) (fun _ => 5)) = [([false], some [false, false, false, false, false, true, false, true])] := by decide
+
 /-! ## theorems instantiated on the example history / concrete values: the history-level hypotheses (`1 ≤ m`, `ValidHistory`,
     widths) are discharged; hypotheses that name a particular bucket / node / key stay universally quantified in these terms.
     Fully closed instances: the `decide` examples. -/
